@@ -175,8 +175,10 @@ def run(ctx):
     traces = vlib.run_harness(ctx, binp, cases, timeout=1500)
     vlib.sample(ctx, [t for t in traces if t["kind"] == "bin"][:1] + [t for t in traces if t["kind"] == "glm"][:1]
                 + [t for t in traces if t["kind"] == "multi"][:1])
-    ctx.extra["fit_no_result"] = sum(1 for t in traces if t["ev"] and t["ev"][0].get("ev") == "fit"
-                                     and not t["ev"][0].get("ok") and t["ev"][0].get("err") in ("TIMEOUT", "Argmin", "ArgMinError"))
+    # GLM fits that ended without a model (argmin error / time-out); Trace_Glm accepts this only for the non-convex
+    # configurations, everywhere else it is a violation
+    ctx.extra["glm_fit_no_result"] = sum(1 for t in traces if is_glm(t) and t["ev"] and t["ev"][0].get("ev") == "fit"
+                                         and not t["ev"][0].get("ok") and t["ev"][0].get("err") in ("TIMEOUT", "Argmin"))
     validate(ctx, traces)
     ctx.extra["out_of_modelled_range_no_verdict"] = count_notes(ctx)
     ctx.rule = ("cases = lattice data sets enumerated by TLC (sorted 1-D designs x all surjective label / target vectors, "
